@@ -75,8 +75,11 @@ PLAN["C04"]["quick"].append(job("native", "wide", 16, 600))
 PLAN["C04"]["thorough"] += [job("native", "wide", 16, 3000), miri("wide", 2, 2, 3000), job("tsan", "wide", 8, 1800, args=["--scale", "0.02"])]
 LEVEL["C05"] = "exploration"
 RULES["C05"] = ("capacity-1 DAG benches on MT executors with delays at task/executor/channel sites; per-model busy flag and HBegin/HEnd stamp intervals must never overlap; "
-                "a plain (non-atomic) model field written by every handler exposes double polls to Miri/TSan as data races; non-trivial = a handler started while a sender was suspended")
-sim_plan("C05", ["mt"], miri_parts=["mt"], tsan_parts=["mt"])
+                "a plain (non-atomic) model field written by every handler exposes double polls to Miri/TSan as data races; part gates: replier handlers blocked on harness gates whose polls are widened by a busy-wait while a conductor model "
+                "on another worker issues bursts of wake-ups (landing during a poll and during the re-poll it causes); a poll that begins while the per-model polling flag is set is an overlap; "
+                "non-trivial = a handler started while a sender was suspended / gated case in which wake-ups reached blocked or running repliers")
+sim_plan("C05", ["mt", "gates"], miri_parts=["mt"], tsan_parts=["mt"])
+PLAN["C05"]["thorough"] += [miri("gates", 4, 8, 3000), job("tsan", "gates", 8, 1800, args=["--scale", "0.05"])]
 LEVEL["C06"] = "exploration"
 RULES["C06"] = ("closed-form deadlock benches (analytic reports; including events and queries addressed to a dropped mailbox, which must not be counted as lost), random cyclic benches with query loops/saturation/orphan mailboxes/sub-models, and healthy DAG benches under MT with delays "
                 "on the idle/park hand-off; every Deadlock/MessageLoss/Ok result compared with per-mailbox (pushes - pops) ground truth from channel probes; "
